@@ -102,6 +102,8 @@ def check(c: Check):
     clause_h(c, traces, sk)
     clause_i(c)
     clause_e_full(c)
+    from .common import sweep_records
+    sweep_records(c, 'C01-rec', ['exactly_lib.execution'], floor=15)
 
 
 def clause_e_full(c: Check):
@@ -248,6 +250,15 @@ def clause_bcde(c: Check, traces: List[Trace], sk):
                 c.expect(ok, 'C01-e', 'execute/terminal/' + tid,
                          'result names %r; earliest failing step is %r' % (org, fr), EXECUTOR_MOD,
                          extra={'trace': t.short()})
+                # an error dominates a failed assertion: the failure of [assert] may be the verdict FAIL (not an
+                # error); when a later step (cleanup) fails too, that error must be what is reported ("an error
+                # ... will be reported as an error, and not as a failed test")
+                later = [s for s in t.steps[t.steps.index(fr) + 1:] if s.kind == 'step' and s.raised]
+                if fr.phase == 'ASSERT' and sk(fr) == 'MAIN' and later:
+                    c.expect(org is later[0], 'C01-e', 'execute/error-dominates-failed-assertion/' + tid,
+                             'the assertion failed and then %r failed with an error, but the result names %r: the test '
+                             'is reported as a failed test although its execution was interrupted by an error' % (
+                                 later[0], org), EXECUTOR_MOD, extra={'trace': t.short()})
     # e/nonnull: the model assumes PhaseStepFailureException always carries a failure
     ix = c.ix
     psfe = ix.cls('exactly_lib.execution.result:PhaseStepFailureException')
